@@ -144,6 +144,10 @@ def gen_scen(rng, idx):
             ops.append("r%d:x%s" % (i, g)); mops.append("r%d:x%s" % (i, g))
             deterministic_down = False
             k["garbage"] = g
+    # final expectations: carriers that must end up closed (wrong token, closed by the peer) — the driver waits for them
+    mustclose = [i for i, k in enumerate(carriers) if k["kind"] == "badtoken" or (k["kind"] in ("good", "garbage") and not k["open"] and k.get("cid"))]
+    if mustclose:
+        ops.append("z" + "".join("@k%d" % i for i in mustclose))
     return ops, mops, dict(cids=cids, carriers=carriers, written=written, deterministic=deterministic, expdown=expdown)
 
 
